@@ -51,6 +51,17 @@ def _profile(frame, event, arg):
             _REPO_FUNCS.add("%s:%s" % (fn.rsplit("/", 1)[-1], getattr(co, "co_qualname", co.co_name)))
 
 
+class PathTimeout(core.Control):
+    """wall-clock watchdog of one path (a hang must never hang the check)"""
+
+
+def _alarm(signum, frame):
+    raise PathTimeout("path exceeded its wall-clock limit")
+
+
+PATH_WALL_S = int(os.environ.get("VERIF_PATH_WALL_S", "300"))
+
+
 def run_path(fn, params, prefix, step_budget, solver_timeout_ms, profile=False):
     """Execute the harness once along `prefix`.  Returns (status, ctx, cover, message)."""
     global COVER, _REPO_FUNCS
@@ -61,8 +72,16 @@ def run_path(fn, params, prefix, step_budget, solver_timeout_ms, profile=False):
     if profile:
         _REPO_FUNCS = set()
         sys.setprofile(_profile)
+    import signal
+    import threading as _t
+    use_alarm = _t.current_thread() is _t.main_thread()
+    if use_alarm:
+        signal.signal(signal.SIGALRM, _alarm)
+        signal.alarm(PATH_WALL_S)
     try:
         fn(**params)
+    except PathTimeout as e:
+        status, msg = "unwound", "wall-clock watchdog: %s" % e
     except core.Stop:
         status = "ok"
     except core.OutOfBound as e:
@@ -81,6 +100,8 @@ def run_path(fn, params, prefix, step_budget, solver_timeout_ms, profile=False):
         status = "error"
         msg = "".join(traceback.format_exception(type(e), e, e.__traceback__)[-6:])
     finally:
+        if use_alarm:
+            signal.alarm(0)
         if profile:
             sys.setprofile(None)
     if status == "ok" and ctx.flag in ("unsupported", "unknown", "unwound"):
